@@ -165,3 +165,12 @@ plan("C19", "c19.py", "gate-scheduled cycles of offers / writer steps / stop ove
      "Trusted: queue.SimpleQueue FIFO axioms with the rely `the enqueue history only grows`, threading.Thread, Twisted Service / "
      "deferToThreadPool (absent here: stub for replay), Dest interface model (Exception subclasses), encoding assumptions. "
      "Real interleavings are explored by the bounded driver only.", side_checks=["logwriter_check.py"])
+
+plan("C18", "c18.py", "signatures (every parameter kind, defaults, colliding names) x targets x decorator options x valid/invalid calls x contexts x body outcomes, on the real code",
+     "Proof: log_call's logging_wrapper calls the wrapped function exactly once with the very same args / kwargs, returns its result object for "
+     "include_result both true and false, lets its exception object propagate unchanged, never runs it when Python's binding (getcallargs) fails, "
+     "logs the result iff include_result, and restores the context; start fields are the bound arguments handed over as a dict (no clash with "
+     "start_action's own parameter names after the fix). What `the wrapper accepts exactly the calls the function accepts` rests on is the "
+     "boltons.funcutils.wraps / inspect.getcallargs library contracts: bounded driver only (known findings C18-F1, F3, F5).",
+     "Trusted: inspect.getcallargs = Python's own binding, boltons.funcutils.wraps (cross-checked by the driver: findings), UserCode rely, E13. "
+     "Known findings C18-F1..F5.")
